@@ -1132,6 +1132,9 @@ type HelperCase struct {
 	Fail        bool     `json:"fail,omitempty"`  // Stream: the reader fails after Data
 	Chunk       int      `json:"chunk,omitempty"` // Stream: bytes per Read
 	URL         string   `json:"url,omitempty"`
+	// Preset: a Content-Type some earlier code (a middleware, the handler itself) had already put in the response header
+	// before the helper is called; Blob and Stream still send the content type they are given.
+	Preset string `json:"preset,omitempty"`
 }
 
 func (c *HelperCase) String() string {
@@ -1140,6 +1143,9 @@ func (c *HelperCase) String() string {
 		lim = fmt.Sprintf("%d byte(s)", c.Limit)
 	}
 	pre := fmt.Sprintf("%s request, underlying writer %q accepting %s; ", c.Method, c.Writer, lim)
+	if c.Preset != "" {
+		pre += fmt.Sprintf("response header already holds Content-Type %q; ", c.Preset)
+	}
 	switch c.Helper {
 	case "String":
 		return pre + fmt.Sprintf("c.String(%d, %q, %q)", c.Code, c.Format, c.Args)
@@ -1179,6 +1185,9 @@ func runHelper(fam *family, c *HelperCase) (out *helperOut, err error) {
 		ran = true
 		var want []byte
 		var rerr error
+		if c.Preset != "" {
+			fc.Writer().Header().Set("Content-Type", c.Preset)
+		}
 		switch c.Helper {
 		case "String":
 			args := make([]any, len(c.Args))
@@ -1329,6 +1338,7 @@ func genHelper(t *rapid.T) *HelperCase {
 	}
 	c.Helper = gen.Pick(t, hs, "helper")
 	c.Code = gen.Pick(t, helperCodes, "code")
+	c.Preset = gen.Pick(t, []string{"", "", "application/x-preset", "text/plain; charset=utf-8"}, "preset")
 	switch c.Helper {
 	case "String":
 		f := gen.Pick(t, formats, "format")
